@@ -14,3 +14,5 @@ for ID in "$@"; do
 done
 git -C /repo checkout -- .
 git -C /repo status --porcelain | head -3
+# rebuild the clean binaries (the ones just built contain the seeded change); a batch driver may skip this and rebuild once
+if [ -z "${SKIP_REBUILD:-}" ]; then ./check --build > /dev/null 2>&1 || echo "rebuild of the clean tree failed"; fi
